@@ -145,7 +145,10 @@ static inline void fill_chunk(Chunk& ch, const Col& c, int64_t rows) {
     }
 }
 
-static inline int64_t gen_rows(bool allow_big) {
+inline int64_t g_row_cap = 0;     // drivers that enumerate faults per scenario keep tables small (0 = no cap)
+static inline int64_t gen_rows_uncapped(bool allow_big);
+static inline int64_t gen_rows(bool allow_big) { int64_t r = gen_rows_uncapped(allow_big); return g_row_cap && r > g_row_cap ? r % (g_row_cap + 1) : r; }
+static inline int64_t gen_rows_uncapped(bool allow_big) {
     uint32_t k = draw(20);
     if (k < 14) return draw(40);                  // 0..39 (0 = simplest)
     if (k < 18) return 40 + draw(360);
